@@ -1,6 +1,7 @@
 mod alloc;
 mod c17;
 mod layout;
+mod proto;
 mod template;
 mod valve;
 mod transport;
@@ -25,12 +26,58 @@ fn drift_ids() -> Vec<String> {
     v["drift"].as_array().unwrap().iter().map(|d| d["id"].as_str().unwrap().to_string()).collect()
 }
 
+fn replay_one(r: &Value, prop: &str, rep: &mut Report) {
+    let prop: &'static str = Box::leak(prop.to_string().into_boxed_str());
+    match r["kind"].as_str().unwrap_or("") {
+        "proto-layout" => {
+            let script: transport::ScriptJ = serde_json::from_value(r["script"].clone()).unwrap();
+            let entry = r["entry"].as_str().unwrap();
+            let rec = proto::call(entry, &script, 27015, 0, None);
+            for e in &rec.events {
+                eprintln!("{}", transport::event_json(e));
+            }
+            eprintln!("outcome: {}", rec.outcome.to_json());
+            let b = proto::Built {
+                batches: vec![],
+                tcp: false,
+                expected: r["expected"].clone(),
+                unordered: r["unordered"].as_array().cloned().unwrap_or_default(),
+                values: Default::default(),
+                multi: None,
+            };
+            rep.evaluations += 1;
+            proto::judge_value(prop, entry, &r["case"], &b, &script, &rec, rep);
+        }
+        "buffer-transition" => c17::replay_buffer(&[r["case"].clone()], rep),
+        "varint-case" => c17::replay_varint(&[r["case"].clone()], rep),
+        k => {
+            eprintln!("replay of kind {k:?} is not supported by the harness; re-run the check instead");
+            std::process::exit(2);
+        }
+    }
+}
+
 fn main() {
     install_panic_hook();
     let args: Vec<String> = std::env::args().collect();
     let cmd = args.get(1).map(|s| s.as_str()).unwrap_or("");
     let seed = arg_u64(&args, "--seed", 1);
     let mut rep = Report::new();
+    let outcome = std::panic::catch_unwind(std::panic::AssertUnwindSafe(|| run(cmd, &args, seed, &mut rep)));
+    if outcome.is_err() {
+        eprintln!("HARNESS-PANIC: {}", take_panic());
+        std::process::exit(3);
+    }
+    let j = rep.to_json();
+    match arg(&args, "--report") {
+        Some(p) => std::fs::write(p, serde_json::to_string(&j).unwrap()).expect("write report"),
+        None => println!("{}", j),
+    }
+}
+
+fn run(cmd: &str, args: &[String], seed: u64, rep: &mut Report) {
+    let mut rep = rep;
+    let args: Vec<String> = args.to_vec();
     match cmd {
         "c17-replay-buffer" => c17::replay_buffer(&read_ndjson(arg(&args, "--in").unwrap()), &mut rep),
         "c17-replay-varint" => c17::replay_varint(&read_ndjson(arg(&args, "--in").unwrap()), &mut rep),
@@ -87,14 +134,19 @@ fn main() {
                 valve::replay_behaviours(&ctx, &read_ndjson(arg(&args, "--in").unwrap()), seed, reps, &only, &mut rep);
             }
         }
+        "proto-layouts" => {
+            let layouts = layout::LayoutSet::load(arg(&args, "--layouts").unwrap());
+            let protos: Vec<&str> = arg(&args, "--protos").unwrap().split(',').collect();
+            proto::replay_layouts(&layouts, &protos, seed, arg_u64(&args, "--reps", 1) as usize, &mut rep);
+        }
+        "replay" => {
+            let f: Value = serde_json::from_str(&std::fs::read_to_string(arg(&args, "--in").unwrap()).unwrap()).unwrap();
+            let r = if f.get("replay").is_some() { f["replay"].clone() } else { f.clone() };
+            replay_one(&r, f["property"].as_str().unwrap_or("C00"), &mut rep);
+        }
         _ => {
             eprintln!("unknown command {cmd:?}");
             std::process::exit(2);
         }
-    }
-    let j = rep.to_json();
-    match arg(&args, "--report") {
-        Some(p) => std::fs::write(p, serde_json::to_string(&j).unwrap()).expect("write report"),
-        None => println!("{}", j),
     }
 }
